@@ -1,4 +1,5 @@
 #include "graph.hpp"
+#include "hooks.hpp"
 #include <algorithm>
 #include <dirent.h>
 
@@ -191,13 +192,11 @@ std::string project(NifFile& nif, UidMap& um, const ProjOpts& o, ContentIds* cid
 			jb.add("strs", ss);
 		}
 		if (o.cids && cids) {
-			auto cl = b->Clone(); // write-mode Sync normalises in place: never Put() the live block
-			std::ostringstream os(std::ios::binary);
-			NiHeader h2(hdr);
-			NiOStream s(&os, &h2);
-			cl->Put(s);
-			std::string bytes = os.str();
-			jb.add("size", (long long) bytes.size()).add("cid", cids->of(bytes));
+			PutInfo pi = putBlock(b, hdr);
+			JArr wr, ws;
+			for (auto& w : pi.wrefs) wr.add(w.second);
+			for (auto& w : pi.wstrs) ws.add(w.second);
+			jb.add("size", (long long) pi.bytes.size()).add("cid", cids->of(pi.masked())).add("wrefs", wr).add("wstrs", ws);
 		}
 		blocks.add(jb);
 	}
@@ -266,6 +265,13 @@ std::unique_ptr<NiObject> makeBlock(const JV& b, const NiVersion& ver) {
 			if (shader->TextureSetRef()) shader->TextureSetRef()->index = next();
 		}
 	}
+	else if (auto body = dynamic_cast<bhkRigidBody*>(obj.get())) {
+		body->shapeRef.index = next();
+		while (k < refs.size()) body->constraintRefs.AddBlockRef(next());
+	}
+	else if (auto con = dynamic_cast<bhkConstraint*>(obj.get())) {
+		for (auto p : ptrs) con->entityRefs.AddBlockRef(toRef(p));
+	}
 	else if (auto col = dynamic_cast<bhkNiCollisionObject*>(obj.get())) {
 		col->bodyRef.index = next();
 		col->targetRef.index = ptrs.empty() ? NIF_NPOS : toRef(ptrs[0]);
@@ -314,6 +320,64 @@ bool applyGraphOp(NifFile& nif, const JV& a) {
 	else
 		return false;
 	return true;
+}
+
+std::string fileAbstract(const std::string& bytes, NifFile* model, ContentIds& cids) {
+	HeaderInfo h = parseHeader(bytes);
+	JObj f;
+	f.add("parsed", h.ok).add("len", (long long) bytes.size()).add("hdrLen", (long long) h.hdrLen).add("nblocks", (long long) h.nblocks);
+	f.add("hs", h.hasSizes).add("hasStrings", h.hasStrings).add("maxLen", (long long) h.maxLen);
+	JArr types, tidx, sizes, strings, blocks;
+	for (auto& t : h.types) types.add(t);
+	for (auto v : h.tidx) tidx.add((long long) v);
+	for (auto v : h.sizes) sizes.add((long long) (v > 0x7ffffff0u ? 0x7ffffff0u : v));
+	for (auto& s : h.strings) strings.add(s);
+	f.add("types", types).add("tidx", tidx).add("sizes", sizes).add("strings", strings);
+	size_t pos = h.hdrLen;
+	bool walked = h.ok;
+	for (uint32_t i = 0; i < h.nblocks && walked; i++) {
+		PutInfo pi;
+		bool havePi = false;
+		if (model && i < model->GetHeader().GetNumBlocks()) {
+			NiObject* b = model->GetHeader().GetBlock<NiObject>(i);
+			if (b) {
+				pi = putBlock(b, model->GetHeader());
+				havePi = true;
+			}
+		}
+		size_t sz = h.hasSizes ? (i < h.sizes.size() ? h.sizes[i] : 0) : (havePi ? pi.bytes.size() : 0);
+		if (!h.hasSizes && !havePi) { walked = false; break; }
+		if (pos + sz > bytes.size()) { walked = false; break; }
+		std::string blk = bytes.substr(pos, sz);
+		pos += sz;
+		JArr wr, ws;
+		if (havePi && pi.bytes.size() == blk.size()) {
+			for (auto& w : pi.wrefs) {
+				uint32_t v = 0;
+				if (w.first + 4 <= blk.size()) { memcpy(&v, &blk[w.first], 4); memset(&blk[w.first], 0, 4); }
+				wr.add(refVal(v));
+			}
+			for (auto& w : pi.wstrs) {
+				uint32_t v = 0;
+				if (w.first + 4 <= blk.size()) { memcpy(&v, &blk[w.first], 4); memset(&blk[w.first], 0, 4); }
+				ws.add(refVal(v));
+			}
+		}
+		JObj jb;
+		std::string tn = i < h.tidx.size() && h.tidx[i] < h.types.size() ? h.types[h.tidx[i]] : std::string("?");
+		jb.add("type", tn).add("size", (long long) sz).add("cid", cids.of(blk)).add("wrefs", wr).add("wstrs", ws);
+		blocks.add(jb);
+	}
+	f.add("blocks", blocks).add("walked", walked).add("end", (long long) pos);
+	JArr footer;
+	if (walked && pos + 8 <= bytes.size()) {
+		uint32_t a, b;
+		memcpy(&a, &bytes[pos], 4);
+		memcpy(&b, &bytes[pos + 4], 4);
+		footer.add((long long) a).add((long long) (b > 0x7ffffff0u ? 0x7ffffff0u : b));
+	}
+	f.add("footer", footer);
+	return f.done();
 }
 
 std::string saveToString(NifFile& nif, bool optimize, bool sort) {
